@@ -386,3 +386,143 @@ Proof.
   intros s dims n Hr H. destruct dims as [[|d t]|]; try exact H.
   unfold aten_var_count_fixed. apply (var_count_correct s (d :: t) n Hr); [discriminate | exact H].
 Qed.
+
+(* ================================================================== repaired variants (proposed_fixes/ready) *)
+Lemma allany_dims_shape_fixed_correct : forall s dims keepdim out,
+  torch_allany_shape s dims keepdim = Some out -> aten_allany_dims_shape_fixed s dims keepdim = Some out.
+Proof.
+  intros s dims kd out H. unfold aten_allany_dims_shape_fixed. destruct dims as [ds|].
+  - destruct ds as [|d t].
+    + cbn [zlen length Z.of_nat Z.eqb orb]. unfold torch_allany_shape in H. cbn in H. rewrite rd_nil in H. exact H.
+    + replace (zlen (d :: t) =? 0) with false by (rewrite zlen_cons; pose proof (zlen_nonneg _ t); lia). cbn [orb].
+      destruct s as [|x s'].
+      * cbn [zlen length Z.of_nat Z.eqb]. unfold torch_allany_shape in H.
+        destruct (omap_all (wrap_dim (zlen [])) (d :: t)); [|discriminate]. cbn [obind] in H. destruct (nodupZ l); [|discriminate].
+        cbn in H. exact H.
+      * assert (Hr : 0 < zlen (x :: s')) by (rewrite zlen_cons; pose proof (zlen_nonneg _ s'); lia).
+        replace (zlen (x :: s') =? 0) with false by lia. apply allany_dims_shape_correct; [assumption | discriminate | assumption].
+  - apply (allany_nodim_shape_correct s kd out H).
+Qed.
+
+Lemma argmax_nodim_value : forall s keepdim, prodZ s <> 0 ->
+  aten_argmax_shape s None keepdim = Some (if zlen s =? 0 then [] else if keepdim then [1] else []).
+Proof.
+  intros s kd Hp. unfold aten_argmax_shape. rewrite reshape_flat. cbn [obind]. unfold argmax_shape. cbn [zlen length Z.of_nat].
+  unfold norm_axis. cbn. replace (prodZ s =? 0) with false by lia. destruct (zlen s =? 0); destruct kd; reflexivity.
+Qed.
+
+Lemma exb_ones : forall n, existsb (fun t => t <? -1) (repeat 1 n) = false.
+Proof. induction n; [reflexivity | cbn; assumption]. Qed.
+Lemma cnt_ones : forall n, count_of (-1) (repeat 1 n) = 0%nat.
+Proof. induction n; [reflexivity | unfold count_of in *; cbn; assumption]. Qed.
+Lemma rz_ones : forall n ins, resolve_zeros ins (repeat 1 n) = Some (repeat 1 n).
+Proof. induction n; intro ins; [reflexivity|]. cbn. rewrite IHn. reflexivity. Qed.
+Lemma has_ones : forall n, has (-1) (repeat 1 n) = false.
+Proof. induction n; [reflexivity | unfold has in *; cbn; assumption]. Qed.
+Lemma prod_ones : forall n, prodZ (repeat 1 n) = 1.
+Proof. induction n; [reflexivity|]. cbn [repeat]. rewrite prodZ_cons, IHn. reflexivity. Qed.
+Lemma reshape_ones : forall n, reshape_shape [1] (repeat 1 n) false = Some (repeat 1 n).
+Proof.
+  intro n. unfold reshape_shape. rewrite exb_ones, cnt_ones. cbn [Nat.ltb Nat.leb andb]. rewrite rz_ones, has_ones, prod_ones. reflexivity.
+Qed.
+
+Lemma argmax_fixed_correct : forall s dim keepdim out,
+  torch_argmax_shape s dim keepdim = Some out -> aten_argmax_shape_fixed s dim keepdim = Some out.
+Proof.
+  intros s dim kd out H. unfold aten_argmax_shape_fixed. destruct dim as [d|]; [apply argmax_dim_correct; assumption|].
+  unfold torch_argmax_shape in H. destruct (prodZ s =? 0) eqn:Ep; [discriminate|]. inversion H; subst out; clear H.
+  rewrite argmax_nodim_value by lia. cbn [obind]. destruct s as [|x [|y t]].
+  - destruct kd; reflexivity.
+  - destruct kd; reflexivity.
+  - assert (1 <? zlen (x :: y :: t) = true) as E by (rewrite !zlen_cons; pose proof (zlen_nonneg _ t); lia).
+    replace (zlen (x :: y :: t) =? 0) with false by lia. rewrite E. destruct kd; cbn [andb]; [apply reshape_ones | reflexivity].
+Qed.
+
+Lemma prod_dtype_fixed_correct : forall t dtype, dtype <> Some 9 -> aten_prod_dtype_fixed t dtype = Some (torch_prod_dtype t dtype).
+Proof.
+  intros t dtype H9. unfold aten_prod_dtype_fixed, torch_prod_dtype. destruct dtype as [d|].
+  - destruct (d =? 9) eqn:E; [apply Z.eqb_eq in E; congruence | reflexivity].
+  - destruct (is_integral t) eqn:Ei; [reflexivity|]. destruct (t =? 9) eqn:E; [|reflexivity].
+    apply Z.eqb_eq in E. subst t. discriminate.
+Qed.
+
+Lemma prod_dim_shape_fixed_correct : forall s dim keepdim out,
+  torch_reduce1_shape s dim keepdim = Some out -> aten_prod_dim_shape_fixed s dim keepdim = Some out.
+Proof.
+  intros s dim kd out H. unfold aten_prod_dim_shape_fixed. destruct s as [|x s'].
+  - cbn [zlen length Z.of_nat Z.eqb]. unfold torch_reduce1_shape in H. destruct (wrap_dim (zlen []) dim); [|discriminate]. cbn in H. exact H.
+  - assert (Hr : 0 < zlen (x :: s')) by (rewrite zlen_cons; pose proof (zlen_nonneg _ s'); lia).
+    replace (zlen (x :: s') =? 0) with false by lia. apply prod_dim_shape_correct; assumption.
+Qed.
+
+(* ------------------------------------------------------------------ prims_var (registered) *)
+Lemma prims_dims_norm : forall r dims, forallb (fun d => (0 <=? d) && (d <? r)) dims = true -> omap_all (norm_axis r) dims = Some dims.
+Proof.
+  intros r dims H. rewrite <- (map_id dims) at 2. apply omap_all_map. intros x Hx.
+  rewrite forallb_forall in H. specialize (H x Hx). unfold norm_axis. replace ((- r <=? x) && (x <? r)) with true by lia.
+  replace (x <? 0) with false by lia. reflexivity.
+Qed.
+
+Lemma prims_var_shape_correct : forall s dims out, torch_prims_var_shape s dims = Some out -> prims_var_shape s dims = Some out.
+Proof.
+  intros s dims out. unfold torch_prims_var_shape, prims_var_shape, prims_dims_ok.
+  destruct (forallb (fun d => (0 <=? d) && (d <? zlen s)) dims) eqn:Ef; [|discriminate]. cbn [andb].
+  destruct (nodupZ dims); [|discriminate]. intro H; inversion H; subst out; clear H.
+  destruct dims as [|d t]; [reflexivity|]. unfold pv_dims, reduce_shape. rewrite (prims_dims_norm _ _ Ef). reflexivity.
+Qed.
+
+Lemma prims_var_count_partial : forall cf s dims n,
+  dims <> [] -> torch_prims_var_count s dims = Some n -> prims_var_count cf s dims = Some n.
+Proof.
+  intros cf s dims n Hne. unfold torch_prims_var_count, prims_var_count, prims_dims_ok, gather_axis.
+  destruct (forallb (fun d => (0 <=? d) && (d <? zlen s)) dims) eqn:Ef; [|discriminate]. cbn [andb].
+  destruct (nodupZ dims); [|discriminate]. destruct dims as [|d t]; [congruence|].
+  rewrite (omap_all_ext _ _ (gather1 s) (nthZ s)); [intro H; exact H|].
+  intros x Hx. rewrite forallb_forall in Ef. specialize (Ef x Hx). unfold gather1.
+  replace ((- zlen s <=? x) && (x <? zlen s)) with true by lia. replace (x <? 0) with false by lia. reflexivity.
+Qed.
+
+Lemma prims_var_count_empty_dims_refuted : exists s n, torch_prims_var_count s [] = Some n /\ prims_var_count false s [] = None.
+Proof. exists [], 1. split; reflexivity. Qed.
+
+Lemma prims_var_count_fixed_correct : forall s dims n, torch_prims_var_count s dims = Some n -> prims_var_count true s dims = Some n.
+Proof.
+  intros s dims n H. destruct dims as [|d t].
+  - unfold torch_prims_var_count in H. cbn in H. exact H.
+  - apply prims_var_count_partial; [discriminate | exact H].
+Qed.
+
+(* 0 < N, correction <= N (negative corrections included): the adjusted mean of squares equals PyTorch's quotient *)
+Lemma prims_var_val_partial : forall ssd n c,
+  0 < n -> (c <= inject_Z n)%Q -> fval_eq (prims_var_val false ssd n n c) (torch_var_val ssd n c).
+Proof.
+  intros ssd n c Hn Hc. unfold prims_var_val, torch_var_val. replace (n =? 0) with false by lia.
+  assert (Hnz : ~ (inject_Z n == 0)%Q) by (unfold Qeq; cbn; lia).
+  assert (Hd : qneg (inject_Z n - c) = false).
+  { unfold qneg. assert (0 <= inject_Z n - c)%Q as H by (apply (Qplus_le_l _ _ c); ring_simplify; assumption).
+    apply qnum_nonneg in H. lia. }
+  unfold qmax0. rewrite Hd. destruct (qzero c) eqn:Ez.
+  - assert (c == 0)%Q as Hz by (destruct c as [cn cd]; unfold qzero in Ez; cbn in Ez; unfold Qeq; cbn; lia).
+    unfold fdiv. assert (qzero (inject_Z n - c) = false) as ->.
+    { rewrite (qzero_eq _ (inject_Z n)) by (rewrite Hz; ring). unfold qzero. cbn. lia. }
+    cbn. rewrite Hz. field. assumption.
+  - apply fdiv_eq. field. assumption.
+Qed.
+
+Lemma prims_var_correction_exceeds_count_refuted : exists ssd n c,
+  0 < n /\ torch_var_val ssd n c = Inf false /\ exists q, prims_var_val false ssd n n c = Fin q /\ (q < 0)%Q.
+Proof. exists 1%Q, 1, 2%Q. split; [lia|]. split; [reflexivity|]. eexists. split; reflexivity. Qed.
+
+Lemma prims_var_val_fixed_correct : forall ssd n c, 0 < n -> fval_eq (prims_var_val true ssd n n c) (torch_var_val ssd n c).
+Proof.
+  intros ssd n c Hn. unfold prims_var_val, torch_var_val. replace (n =? 0) with false by lia.
+  assert (Hnz : ~ (inject_Z n == 0)%Q) by (unfold Qeq; cbn; lia).
+  destruct (qzero c) eqn:Ez.
+  - assert (c == 0)%Q as Hz by (destruct c as [cn cd]; unfold qzero in Ez; cbn in Ez; unfold Qeq; cbn; lia).
+    assert (qneg (inject_Z n - c) = false) as Hd.
+    { rewrite (qneg_eq _ (inject_Z n)) by (rewrite Hz; ring). unfold qneg. cbn. lia. }
+    unfold qmax0. rewrite Hd. unfold fdiv. assert (qzero (inject_Z n - c) = false) as ->.
+    { rewrite (qzero_eq _ (inject_Z n)) by (rewrite Hz; ring). unfold qzero. cbn. lia. }
+    cbn. rewrite Hz. field. assumption.
+  - apply fdiv_eq. field. assumption.
+Qed.
